@@ -44,10 +44,109 @@ from aiomysensors.exceptions import TransportError, TransportFailedError  # noqa
 from aiomysensors.model.message import Message  # noqa: E402
 
 DRIVER = "DriverMqtt.lean"
-# topic prefixes: 1-6 levels, and characters that are ordinary in a topic name but special elsewhere (regular
-# expressions, format strings, shells); "+" and "#" are MQTT wildcards and not legal in a topic name
-PREFIXES = ["a", "a/b", "a/b/c", "mygateway1-out", "mygateway1-in", "gw/1/2/3/4/5", "x-y_z/7",
-            "home (upstairs)/gw", "sensors[1]/out", "what?/out", "a.b*c/{0}", "x^y|z$/%s", "back\\slash/é"]
+# ---- the prefix alphabet ------------------------------------------------------------------------
+#
+# A topic prefix is a CONFIGURATION value (constructor argument); the gateway device publishes under exactly the
+# configured in-prefix and listens under exactly the configured out-prefix, so every part below builds its topics, its
+# oracle and the model's input from the prefix AS CONFIGURED, never from what the transport object stores.
+# MQTT 3.1.1 section 4.7: a topic name is any UTF-8 text of >= 1 character without U+0000 and without the wildcards
+# "+" and "#"; "/" separates levels and a leading, trailing or doubled "/" makes a real (zero-length) level
+# ("/a", "a", "a/" and "a//b" vs "a/b" are all different topics); names are case-sensitive, spaces count, no
+# normalisation of any kind is applied.  "<prefix>/n/c/cmd/ack/type" is a legal topic for the empty prefix as well.
+
+# 1-6 levels, and characters that are ordinary in a topic name but special elsewhere (regular expressions, format
+# strings, shells)
+PLAIN_PREFIXES = ["a", "a/b", "a/b/c", "mygateway1-out", "mygateway1-in", "gw/1/2/3/4/5", "x-y_z/7",
+                  "home (upstairs)/gw", "sensors[1]/out", "what?/out", "a.b*c/{0}", "x^y|z$/%s", "back\\slash/é"]
+# (class, prefix): each class is something a "tidying" of the configured value (strip / rstrip / lstrip of dividers or
+# blanks, collapsing dividers, dropping empty levels, case folding, unicode normalisation, truncation, splitting and
+# re-joining) would change, and with it the topics the transport listens on / publishes to
+EDGE_PREFIXES = [
+    ("leading-divider", "/gw"), ("leading-divider", "/site/floor1/gw-out"),
+    ("trailing-divider", "gw/"), ("trailing-divider", "site/floor1/gw-in/"),
+    ("both-dividers", "/gw/"), ("both-dividers", "/site/gw/"),
+    ("doubled-divider", "site//gw"), ("doubled-divider", "//gw"), ("doubled-divider", "gw//"),
+    ("doubled-divider", "a///b//c"),
+    ("only-dividers", "/"), ("only-dividers", "//"), ("only-dividers", "////"),
+    ("empty", ""),
+    ("blank", " "), ("blank", " gw"), ("blank", "gw "), ("blank", " site / gw "), ("blank", "my gateway/out put"),
+    ("blank", "gw\t"), ("blank", "\tgw"), ("blank", "gw\n"), ("blank", "\u00a0gw\u00a0"), ("blank", "\u3000gw/x\u2003"),
+    ("blank-and-divider", " /gw"), ("blank-and-divider", "gw/ "), ("blank-and-divider", "/ /"),
+    ("case", "GW/Out"), ("case", "gw/OUT"), ("case", "Straße/İ"),
+    ("unicode", "température/é"), ("unicode", "e\u0301/\u00e9"), ("unicode", "ＧＷ/①"), ("unicode", "שלום/بوابة"),
+    ("unicode", "\U0001f321/\U0001f3e0\U0001f3e0"), ("unicode", "网关/出"), ("unicode", "\u200bgw\ufeff"),
+    ("looks-like-levels", "1/2/3/4/5"), ("looks-like-levels", "0"), ("looks-like-levels", "gw/255/255/3/0/11"),
+    ("delimiter", "a;b/c"), ("delimiter", ";"), ("dollar", "$SYS/gw"), ("quotes", "it's/\"gw\""), ("percent", "gw%2Fout"),
+    ("dots", "./../gw"), ("dots", "."),
+    ("many-levels", "/".join(f"l{i}" for i in range(40))), ("long", "p" * 300), ("long", "/".join(["seg" * 10] * 12)),
+]
+# used by the configured-prefix part only (every operation on them carries the whole text to the model)
+HUGE_PREFIXES = [("very-long", "x" * 2000), ("very-long", "/".join(["lvl"] * 500)), ("very-long", "/" * 400 + "gw/")]
+# thorough tier: up to the limit of the protocol (a topic is at most 65535 bytes of UTF-8)
+HUGE_PREFIXES_THOROUGH = [("very-long", "é\U0001f321" * 5000), ("very-long", "/".join(["l"] * 16000)), ("very-long", "x" * 65000)]
+PREFIXES = PLAIN_PREFIXES + [p for _, p in EDGE_PREFIXES]
+LEVEL_ALPHABET = ["", "", "a", "gw", "mys-out", "mys-in", "home", "1", "255", " ", "x y", "é", "Ω", "\U0001f321", "GW", "$SYS",
+                  "a;b", "seg" * 20, "-", "_", ".", "0"]
+
+
+def prefix_class(p: str) -> str:
+    """The classes a prefix falls in (distribution report)."""
+    out = []
+    if p == "":
+        return "empty"
+    if p.startswith("/"):
+        out.append("leading-divider")
+    if p.endswith("/"):
+        out.append("trailing-divider")
+    if "//" in p:
+        out.append("doubled-divider")
+    if p != p.strip() or " " in p:
+        out.append("blank")
+    if not p.isascii():
+        out.append("non-ascii")
+    if len(p) > 100:
+        out.append("long")
+    return "+".join(out) or f"plain-{min(p.count('/') + 1, 6)}-levels"
+
+
+def random_prefix(rng) -> str:
+    """1-9 levels drawn from the level alphabet (zero-length levels included, so leading / trailing / doubled dividers
+    come up by themselves), now and then random characters of the whole legal range."""
+    levels = []
+    for _ in range(rng.choice([1, 1, 2, 2, 3, 3, 4, 5, 6, 9])):
+        if rng.random() < 0.25:
+            levels.append("".join(chr(rng.choice([rng.randint(0x20, 0x7e), rng.randint(0xa0, 0x2ff), rng.randint(0x4e00, 0x4e80),
+                                                  rng.randint(0x1f300, 0x1f340)])) for _ in range(rng.randint(1, 6)))
+                          .replace("+", "p").replace("#", "h").replace("/", "s"))
+        else:
+            levels.append(rng.choice(LEVEL_ALPHABET))
+    return "/".join(levels)
+
+
+def prefix_pool(seed) -> list:
+    """The prefixes of one run: the fixed classes, then random ones of the run's seed.  The first three stay the
+    plain ones (written scenarios use them)."""
+    rng = lib.rng_for(seed, "c18-prefixes")
+    pool = list(PREFIXES)
+    while len(pool) < len(PREFIXES) + 16:
+        p = random_prefix(rng)
+        if p not in pool:
+            pool.append(p)
+    return pool
+
+
+# the prefixes the generators draw from; `run_c18` replaces it by `prefix_pool(seed)`
+POOL = list(PREFIXES)
+
+
+def pick(k: int) -> str:
+    """The k-th prefix of the pool, round after round; a long one (every operation on it carries its whole text to the
+    model) takes its turn in one round out of eight and gives it to a short one otherwise."""
+    p = POOL[k % len(POOL)]
+    if len(p) > 100 and (k // len(POOL)) % 8 != 0:
+        short = [q for q in POOL if len(q) <= 100]
+        p = short[k % len(short)]
+    return p
 PAYLOAD_CLASSES = [
     ("empty", ""), ("semicolon", "55.7;13.0;18"), ("slash", "a/b/c"), ("nonascii", "température °C"),
     ("hash", "#"), ("plus", "+"), ("wild", "a/+/#"), ("only-delim", ";"), ("astral", "\U0001f321 ok"),
@@ -318,6 +417,20 @@ def make_client(in_prefix: str, out_prefix: str, script: dict):
     return client, fake
 
 
+CTOR = "constructing the transport with a legal topic prefix raised "
+
+
+def construct(corr: Corr, rec: dict, factory):
+    """Build a transport as an application does.  Every prefix of the alphabet is a legal topic prefix, so a
+    constructor that raises is judged (nothing the property promises holds for that configuration), not a crash of the
+    harness.  Returns None then."""
+    try:
+        return factory()
+    except Exception as e:  # noqa: BLE001
+        corr.violate(CTOR + type(e).__name__, {**rec, "error": repr(e)[:300]})
+        return None
+
+
 def task_state(client) -> str:
     t = getattr(client, "_incoming_task", None)
     if t is None:
@@ -358,8 +471,8 @@ def mapping_cases(ctx, rng):
                 continue
         else:
             label, p = PAYLOAD_CLASSES[(i // 3 + i // 7) % len(PAYLOAD_CLASSES)]
-        cases.append({"version": lib.VERSIONS[i % 5], "out": PREFIXES[i % len(PREFIXES)],
-                      "in": PREFIXES[(i // len(PREFIXES) + 3) % len(PREFIXES)], "fields": m, "payload": p,
+        cases.append({"version": lib.VERSIONS[i % 5], "out": pick(i),
+                      "in": pick(5 * i + i // len(POOL) + 3), "fields": m, "payload": p,
                       "label": label})
     return cases
 
@@ -375,10 +488,14 @@ async def run_mapping(corr: Corr, cases: list, schemas: dict, n_client: int):
         want_pub = (f"{case['out']}/{n}/{c}/{cmd}/{ack}/{t}", p, ack)
         want_line = f"{n};{c};{cmd};{ack};{t};{p}"
         use_client = idx < n_client or case["label"] == "corpus"
-        variants = [("mem", MemTransport(case["in"], case["out"]), None)]
+        variants = []
+        mem = construct(corr, {**rec, "transport": "mem"}, lambda: MemTransport(case["in"], case["out"]))
+        if mem is not None:
+            variants.append(("mem", mem, None))
         if use_client:
-            cl, fake = make_client(case["in"], case["out"], {})
-            variants.append(("client", cl, fake))
+            made = construct(corr, {**rec, "transport": "client"}, lambda: make_client(case["in"], case["out"], {}))
+            if made is not None:
+                variants.append(("client", made[0], made[1]))
         impl_pub = impl_line = None
         for kind, tr, fake in variants:
             vrec = {**rec, "transport": kind}
@@ -402,15 +519,18 @@ async def run_mapping(corr: Corr, cases: list, schemas: dict, n_client: int):
                     impl_pub = pubs[0]
             # echo under the in-prefix
             echo_topic = topic_of(case["in"], case["fields"])
+            deaf = False
             if kind == "mem":
                 tr._receive(echo_topic, p)  # noqa: SLF001  documented hook
             else:
                 if not fake.feed(echo_topic, p.encode()) and 0 <= cmd <= 4:
                     corr.violate(DEAF, {**vrec, "topic": echo_topic, "subscriptions": list(fake.active)})
-                    continue
+                    deaf = True
                 await settle()
-            r = await guarded(tr.read())
-            if r != ("ok", want_line):
+            r = ("deaf", None) if deaf else await guarded(tr.read())
+            if deaf:
+                pass
+            elif r != ("ok", want_line):
                 corr.violate("echoed message is not read back as node;child;command;ack;type;payload",
                              {**vrec, "topic": echo_topic, "got": repr(r), "want": want_line})
             else:
@@ -518,19 +638,22 @@ def compare_raw(corr: Corr, data, outs) -> None:
 
 async def run_subscriptions(corr: Corr):
     ops, recs = [], []
-    for prefix in PREFIXES:
+    for prefix in POOL:
         for kind in ("mem", "client"):
             rec = {"kind": "subscribe", "in": prefix, "transport": kind}
-            if kind == "mem":
-                tr, fake = MemTransport(prefix, "out"), None
-            else:
-                tr, fake = make_client(prefix, "out", {})
+            made = construct(corr, rec, lambda: (MemTransport(prefix, "out"), None) if kind == "mem" else make_client(prefix, "out", {}))
+            if made is None:
+                continue
+            tr, fake = made
             r = await guarded(tr.connect())
             if r[0] != "ok":
                 corr.violate("connect raised with a healthy broker", {**rec, "got": repr(r)})
                 continue
             subs = list(tr.subscribed if kind == "mem" else fake.subscribed)
             filters = [f for f, _ in subs]
+            # the model's matcher is compared with the oracle's on every (filter, topic) pair for the plain prefixes; for
+            # the others on the tidied-up topics only (part G asks the model `subs` and `heard` for every prefix)
+            full = prefix in PLAIN_PREFIXES
             for n, c, ack, t in [(1, 2, 0, 49), (0, 255, 1, 2), (255, 0, 0, -5), (254, 100, 1, 10**20)]:
                 for cmd in range(-2, 8):
                     topic = f"{prefix}/{n}/{c}/{cmd}/{ack}/{t}"
@@ -538,19 +661,24 @@ async def run_subscriptions(corr: Corr):
                     if hit != (0 <= cmd <= 4):
                         corr.violate("subscriptions do not match exactly the topics with command 0-4",
                                      {**rec, "topic": topic, "matched": hit, "filters": filters})
-                    if kind == "mem":
+                    if kind == "mem" and full:
                         for f in filters:
                             ops.append(f"match {enc(f)} {enc(topic)}")
                             recs.append(("match", f, topic, mqtt_match(f, topic)))
             if kind == "mem":
                 # topics of another shape: model vs the oracle's matcher only
-                for topic in [prefix, f"{prefix}/1/2/1/0", f"{prefix}/1/2/1/0/49/x", f"x{prefix}/1/2/1/0/49",
-                              f"{prefix}//2/1/0/49", f"{prefix}/1/2/1/0/", f"{prefix}/+/+/1/+/+"]:
-                    for f in filters:
+                other = [prefix, f"{prefix}/1/2/1/0", f"{prefix}/1/2/1/0/49/x", f"x{prefix}/1/2/1/0/49",
+                         f"{prefix}//2/1/0/49", f"{prefix}/1/2/1/0/", f"{prefix}/+/+/1/+/+"] if full else []
+                # the same prefix tidied up is another topic (MQTT 4.7.3)
+                tidied = [f"{prefix.strip('/')}/1/2/1/0/49", f"/{prefix}/1/2/1/0/49", f"{prefix}//1/2/1/0/49",
+                          f"{prefix.strip()}/1/2/1/0/49", f"{prefix.lower()}/1/2/1/0/49"] if len(prefix) <= 100 else []
+                for topic in other + tidied:
+                    for f in (filters if full else filters[1:2]):
                         ops.append(f"match {enc(f)} {enc(topic)}")
                         recs.append(("match", f, topic, mqtt_match(f, topic)))
-                ops.append(f"subs {enc(prefix)}")
-                recs.append(("subs", prefix, subs, None))
+                if full:
+                    ops.append(f"subs {enc(prefix)}")
+                    recs.append(("subs", prefix, subs, None))
             if kind == "client":
                 r = await guarded(tr.disconnect())
                 if r[0] != "ok":
@@ -575,6 +703,145 @@ def compare_subscriptions(corr: Corr, recs, outs) -> None:
                 model.append((lib.dec(f), int(q) if q != "indexerror" else q))
             if model != rec[2]:
                 corr.disagree("subscriptions", {"in": rec[1], "impl": repr(rec[2]), "model": repr(model)})
+
+
+# ---- part G: the prefixes as configured ------------------------------------------------------
+#
+# The application configures the two prefixes (constructor arguments); the gateway device publishes under exactly the
+# configured in-prefix and listens under exactly the configured out-prefix.  For every prefix of the alphabet, as
+# in-prefix and as out-prefix independently, on both transports: connect, then per command 0-4 a broker message on
+# '<configured in-prefix>/n/c/cmd/ack/type' - the harness's broker matches it by the MQTT rules against the
+# subscriptions the transport made - must be forwarded and read back as the line, and the write of the same message must be
+# one publish on '<configured out-prefix>/n/c/cmd/ack/type'; then disconnect.  The model is given the configured
+# prefixes too (`subs`, `heard`, `topic`, `line`).
+
+# one message per command 0-4: (fields, payload)
+PREFIX_MESSAGES = [[[12, 0, 0, 0, 6], "a;b;c"], [[1, 2, 1, 1, 2], "1"], [[3, 4, 2, 0, 24], ""], [[0, 255, 3, 0, 11], "sketch 1/2"],
+                   [[254, 1, 4, 1, 0], "température °C"]]
+SHOWN = 160
+
+
+def shown(p: str) -> str:
+    """A prefix as a report shows it (the replay file holds it whole)."""
+    return p if len(p) <= SHOWN else f"{p[:60]}...({len(p)} characters)...{p[-40:]}"
+
+
+def prefix_config_cases(ctx, pool: list, rng) -> list:
+    """(in-prefix, out-prefix) pairs: every prefix of the pool and the very long ones once as the in-prefix and once as
+    the out-prefix, paired by a shuffle of the run's seed (the two are independent settings); some with both the same;
+    random pairs."""
+    allp = pool + [p for _, p in HUGE_PREFIXES + (HUGE_PREFIXES_THOROUGH if ctx.tier != "quick" else [])]
+    outs = list(allp)
+    rng.shuffle(outs)
+    pairs = list(zip(allp, outs))
+    pairs += [(p, p) for j, p in enumerate(pool) if j % 6 == ctx.seed % 6]
+    for _ in range(20 if ctx.tier == "quick" else 1500):
+        pairs.append((rng.choice(pool) if rng.random() < 0.5 else random_prefix(rng),
+                      rng.choice(pool) if rng.random() < 0.5 else random_prefix(rng)))
+    seen, out = set(), []
+    for pair in pairs:
+        if pair not in seen:
+            seen.add(pair)
+            out.append({"kind": "prefix", "in_prefix": pair[0], "out_prefix": pair[1], "messages": PREFIX_MESSAGES})
+    return out
+
+
+async def run_prefix_configs(corr: Corr, cases: list):
+    ops, recs = [], []
+    for case in cases:
+        pin, pout, msgs = case["in_prefix"], case["out_prefix"], case["messages"]
+        obs = {}
+        for kind in ("mem", "client"):
+            rec = {"kind": "prefix", "transport": kind, "in_prefix": pin, "out_prefix": pout, "messages": msgs}
+            # as an application does: the prefixes are constructor arguments
+            made = construct(corr, rec, lambda: (MemTransport(in_prefix=pin, out_prefix=pout), None) if kind == "mem"
+                             else make_client(pin, pout, {}))
+            if made is None:
+                continue
+            tr, fake = made
+            r = await guarded(tr.connect())
+            if r[0] != "ok":
+                corr.violate("connect raised with a healthy broker", {**rec, "got": repr(r)})
+                continue
+            subs = list(tr.subscribed if kind == "mem" else fake.subscribed)
+            heard, lines, pubs_seen = [], [], []
+            for fields, payload in msgs:
+                n, c, cmd, ack, t = fields
+                topic = topic_of(pin, fields)
+                want_line = f"{n};{c};{cmd};{ack};{t};{payload}"
+                fwd = tr.broker_message(topic, payload) if kind == "mem" else fake.feed(topic, payload.encode())
+                heard.append(fwd)
+                if not fwd:
+                    lines.append(None)
+                    if 0 <= cmd <= 4:
+                        corr.violate(DEAF, {**rec, "topic": topic, "subscriptions": [f for f, _ in subs]})
+                else:
+                    await settle()
+                    r = await guarded(tr.read())
+                    lines.append(r[1] if r[0] == "ok" else None)
+                    if r != ("ok", want_line):
+                        corr.violate("broker message on '<in-prefix>/node/child/command/ack/type' is not read back as "
+                                     "node;child;command;ack;type;payload", {**rec, "topic": topic, "got": repr(r), "want": want_line})
+                before = len(tr.published if kind == "mem" else fake.published)
+                r = await guarded(tr.write(want_line + "\n"))
+                new = (tr.published if kind == "mem" else fake.published)[before:]
+                new = [(x[0], "" if x[1] is None else x[1], x[2]) for x in new]
+                pubs_seen.append(new[0] if r[0] == "ok" and len(new) == 1 else None)
+                want_pub = (topic_of(pout, fields), payload, ack)
+                if r[0] != "ok":
+                    corr.violate("write of a well-formed message raised " + str(r[1] or r[0]), {**rec, "line": want_line, "got": repr(r)})
+                elif new != [want_pub]:
+                    corr.violate("publish is not (<out-prefix>/node/child/command/ack/type, payload, qos=ack)",
+                                 {**rec, "line": want_line, "published": repr(new), "want": repr(want_pub)})
+            r = await guarded(tr.disconnect())
+            if r[0] != "ok":
+                corr.violate("connect followed by disconnect raised " + str(r[1] or r[0]), {**rec, "got": repr(r)})
+            left = await leftover_tasks()
+            if left:
+                corr.violate("tasks left running after disconnect", {**rec, "leftover": left})
+            obs[kind] = (subs, heard, lines, pubs_seen)
+            corr.count(f"configured-prefix-run:{kind}")
+        ops.append(f"subs {enc(pin)}")
+        for fields, payload in msgs:
+            n, c, cmd, ack, t = fields
+            ops.append(f"heard {enc(pin)} {enc(topic_of(pin, fields))}")
+            ops.append(f"line {enc(topic_of(pin, fields))} {enc(payload)}")
+            ops.append(f"topic {enc(pout)} {enc(f'{n};{c};{cmd};{ack};{t};{payload}' + chr(10))}")
+        recs.append((case, obs))
+        small = len(pin) <= SHOWN and len(pout) <= SHOWN
+        corr.case(("prefix", pin, pout), True, {"kind": "prefix", "in_prefix": pin, "out_prefix": pout} if small else None)
+        corr.count(f"in-prefix:{prefix_class(pin)}")
+        corr.count(f"out-prefix:{prefix_class(pout)}")
+    return ops, recs
+
+
+def compare_prefix_configs(corr: Corr, recs, outs) -> None:
+    pos = 0
+    for case, obs in recs:
+        k = len(case["messages"])
+        mo = outs[pos: pos + 1 + 3 * k]
+        pos += 1 + 3 * k
+        msubs = []
+        for tok in mo[0].split(" "):
+            f, _, q = tok.rpartition(":")
+            msubs.append((lib.dec(f) if f else f, int(q) if q.lstrip("-").isdigit() else q))
+        mheard = [mo[1 + 3 * i] == "1" for i in range(k)]
+        mlines = [lib.dec(mo[2 + 3 * i]) for i in range(k)]
+        mpubs = []
+        for i in range(k):
+            tok = mo[3 + 3 * i].split(" ")
+            mpubs.append((lib.dec(tok[1]), lib.dec(tok[2]), int(tok[3])) if tok[0] == "ok" and len(tok) == 4 else None)
+        for kind, (subs, heard, lines, pubs) in obs.items():
+            rec = {"kind": "prefix", "transport": kind, "in_prefix": case["in_prefix"], "out_prefix": case["out_prefix"],
+                   "messages": case["messages"]}
+            if subs != msubs:
+                corr.disagree("subscriptions under the configured in-prefix", {**rec, "impl": repr(subs)[:2000], "model": repr(msubs)[:2000]})
+            if heard != mheard:
+                corr.disagree("which broker messages under the configured in-prefix are heard", {**rec, "impl": heard, "model": mheard})
+            if [l for l, h in zip(lines, heard) if h] != [l for l, h in zip(mlines, heard) if h]:
+                corr.disagree("toLine under the configured in-prefix", {**rec, "impl": repr(lines)[:2000], "model": repr(mlines)[:2000]})
+            if pubs != mpubs:
+                corr.disagree("toTopic under the configured out-prefix", {**rec, "impl": repr(pubs)[:2000], "model": repr(mpubs)[:2000]})
 
 
 # ---- part C: reception sessions --------------------------------------------------------------
@@ -635,7 +902,7 @@ def build_session(rng, transport, shape, assign, k, label):
         else:
             payload = rng.choice(GOOD_BYTES if kind == "good" else BAD_BYTES)
             ops.append(["msg", list(rng.choice(SESSION_FIELDS)), payload.hex()])
-    return {"transport": transport, "in": PREFIXES[k % len(PREFIXES)], "ops": ops,
+    return {"transport": transport, "in": pick(k), "ops": ops,
             "aexit": "MqttError" if (transport == "client" and k % 4 == 3) else "ok", "label": label}
 
 
@@ -666,10 +933,11 @@ async def run_session(corr: Corr, sess: dict):
     """Returns the per-step observations [(delivered, pending, task state)] and the disconnect outcome."""
     transport, prefix, ops = sess["transport"], sess["in"], sess["ops"]
     rec = {"kind": "session", "transport": transport, "in_prefix": prefix, "ops": ops, "aexit": sess["aexit"]}
-    if transport == "mem":
-        tr, fake = MemTransport(prefix, "out"), None
-    else:
-        tr, fake = make_client(prefix, "out", {"aexit": sess["aexit"]})
+    made = construct(corr, rec, lambda: (MemTransport(prefix, "out"), None) if transport == "mem"
+                     else make_client(prefix, "out", {"aexit": sess["aexit"]}))
+    if made is None:
+        return None
+    tr, fake = made
     r = await guarded(tr.connect())
     if r[0] != "ok":
         corr.violate("connect raised with a healthy broker", {**rec, "got": repr(r)})
@@ -867,7 +1135,7 @@ def object_runs(ctx, rng):
         [m1, ["err"], ok5, ["disconnect", "ok"], m2, ["err"], ["read"], ok5, m3, ["disconnect", "ok"], ["read"]],
     ]
     for k, ops in enumerate(scenarios):
-        runs.append({"in": PREFIXES[k % 3], "ops": [list(o) for o in ops], "label": "scenario"})
+        runs.append({"in": POOL[k % 3], "ops": [list(o) for o in ops], "label": "scenario"})
     n_random = 260 if ctx.tier == "quick" else 6000
     for k in range(n_random):
         ops = []
@@ -904,7 +1172,8 @@ def object_runs(ctx, rng):
             ops.append(["disconnect", rng.choice(["ok", "ok", "ok", "MqttError"])])
         for _ in range(rng.randint(0, 3)):
             ops.append(["read"])
-        runs.append({"in": PREFIXES[k % len(PREFIXES)], "ops": ops, "label": "random" + ("-stuck" if stuck else "")})
+        runs.append({"in": pick(k), "out": pick(3 * k + 1), "ops": ops,
+                     "label": "random" + ("-stuck" if stuck else "")})
     # exceptions of ANY class out of the aiomqtt calls, at every position: every class at every subscribe call once,
     # then random plans; after each such connect the five commands are probed (nobody hears them if it failed), and the
     # object is used again
@@ -927,7 +1196,7 @@ def object_runs(ctx, rng):
         elif tail < 0.75:
             ops += [["write", rng.choice(OBJ_LINES), rng.choice(["ok"] + CLIENT_FAULT_NAMES)], ["sub", rng.choice(CLIENT_FAULT_NAMES)],
                     ["connect", "ok", None, "ok"], ["read"], ["disconnect", rng.choice(CLIENT_FAULT_NAMES)]]
-        runs.append({"in": PREFIXES[k % len(PREFIXES)], "ops": ops, "label": "fault-classes"})
+        runs.append({"in": pick(k), "out": pick(3 * k + 2), "ops": ops, "label": "fault-classes"})
     return runs
 
 
@@ -984,10 +1253,13 @@ async def run_object(corr: Corr, run: dict):
     """One MQTTClient through the whole run.  Returns the observations, one per op:
     (result, client held, task state, results of the reads completed so far, reads pending, queue size)."""
     prefix, ops = run["in"], run["ops"]
-    rec = {"kind": "object", "in_prefix": prefix, "ops": ops}
+    out_prefix = run.get("out", OBJ_OUT)
+    rec = {"kind": "object", "in_prefix": prefix, "out_prefix": out_prefix, "ops": ops}
     broker = Broker()
     mqtt_mod.AsyncioClient = broker
-    tr = mqtt_mod.MQTTClient("broker.invalid", 1883, in_prefix=prefix, out_prefix=OBJ_OUT)
+    tr = construct(corr, rec, lambda: mqtt_mod.MQTTClient("broker.invalid", 1883, in_prefix=prefix, out_prefix=out_prefix))
+    if tr is None:
+        return []
     reads: list[asyncio.Task] = []
     steps = []
     # the oracle's own bookkeeping, from what the calls returned
@@ -1189,7 +1461,7 @@ def object_ops(run: dict) -> list[str]:
         elif k == "read":
             out.append("oread")
         elif k == "write":
-            out.append(f"owrite {enc(OBJ_OUT)} {enc(op[1])} {model_class(op[2])}")
+            out.append(f"owrite {enc(run.get('out', OBJ_OUT))} {enc(op[1])} {model_class(op[2])}")
         elif k == "sub":
             out.append(f"osub {model_class(op[1])}")
     return out
@@ -1320,7 +1592,7 @@ def hook_fault_plans(ctx, rng) -> list:
 
     def add(plan: dict, label: str) -> None:
         nonlocal k
-        plans.append({"in": PREFIXES[k % len(PREFIXES)], "plan": plan, "label": label})
+        plans.append({"in": pick(k), "out": pick(3 * k + 2), "plan": plan, "label": label})
         k += 1
 
     for name in FAULT_NAMES:
@@ -1361,8 +1633,11 @@ async def run_hook_faults(corr: Corr, cases: list, rng):
     ops, recs = [], []
     for case in cases:
         prefix, plan = case["in"], case["plan"]
-        rec = {"kind": "hookfault", "in_prefix": prefix, "plan": plan}
-        tr = FaultyMem(prefix, OBJ_OUT, plan)
+        out_prefix = case.get("out", OBJ_OUT)
+        rec = {"kind": "hookfault", "in_prefix": prefix, "out_prefix": out_prefix, "plan": plan}
+        tr = construct(corr, rec, lambda: FaultyMem(prefix, out_prefix, plan))
+        if tr is None:
+            continue
         subs = [("ok" if x in (None, "ok") else x) for x in (plan.get("subscribe") or [])] + ["ok"] * N_SUBS
         subs = subs[:N_SUBS]
         c_out, d_out = plan.get("connect") or "ok", plan.get("disconnect") or "ok"
@@ -1394,7 +1669,7 @@ async def run_hook_faults(corr: Corr, cases: list, rng):
             if not planned:
                 pub = plan.get("publish") or "ok"
                 w = await guarded(tr.write(OBJ_LINES[1]))
-                if pub == "ok" and (w[0] != "ok" or tr.published != [(OBJ_OUT + "/1/2/1/1/2", "a;b", 1)]):
+                if pub == "ok" and (w[0] != "ok" or tr.published != [(out_prefix + "/1/2/1/1/2", "a;b", 1)]):
                     corr.violate("write with a healthy publish hook did not publish", {**here, "write": repr(w),
                                                                                      "published": repr(tr.published)})
                 elif pub != "ok" and (w[0] == "ok" or tr.published):
@@ -1519,23 +1794,42 @@ def utf8_cases(ctx, rng):
 
 
 def replay(case: dict) -> None:
-    """Re-execute one recorded case (kinds 'hookfault', 'object', 'session') on the implementation and print what the
-    oracle says about it."""
+    """Re-execute one recorded case (kinds 'hookfault', 'object', 'session', 'prefix', 'write', 'subscribe') on the
+    implementation and print what the oracle says about it."""
     corr = Corr("C18", "replay")
     kind = case.get("kind")
     saved_client = mqtt_mod.AsyncioClient
 
     async def main() -> None:
         if kind == "hookfault":
-            await run_hook_faults(corr, [{"in": case["in_prefix"], "plan": case["plan"], "label": "replay"}],
+            await run_hook_faults(corr, [{"in": case["in_prefix"], "out": case.get("out_prefix", OBJ_OUT), "plan": case["plan"],
+                                         "label": "replay"}],
                                   lib.rng_for(0, "c18-replay"))
         elif kind == "object":
-            steps = await run_object(corr, {"in": case["in_prefix"], "ops": case["ops"], "label": "replay"})
+            steps = await run_object(corr, {"in": case["in_prefix"], "out": case.get("out_prefix", OBJ_OUT), "ops": case["ops"],
+                                            "label": "replay"})
             for op, st in zip(case["ops"], steps):
                 print(f"   {op} -> {st[0]} client={st[1]} task={st[2]} delivered={len(st[3])} waiting={st[4]} queue={st[5]}")
         elif kind == "session":
             await run_session(corr, {"transport": case["transport"], "in": case["in_prefix"], "ops": case["ops"],
                                      "aexit": case.get("aexit", "ok"), "label": "replay"})
+        elif kind in ("prefix", "subscribe"):
+            pin = case["in_prefix"] if kind == "prefix" else case["in"]
+            pout = case["out_prefix"] if kind == "prefix" else "out"
+            print(f"configured in-prefix {pin!r}\nconfigured out-prefix {pout!r}")
+            _, recs = await run_prefix_configs(corr, [{"kind": "prefix", "in_prefix": pin, "out_prefix": pout,
+                                                       "messages": case.get("messages", PREFIX_MESSAGES)}])
+            for _, obs in recs:
+                for tk, (subs, heard, lines, pubs) in obs.items():
+                    print(f"   {tk}: subscribed {[f for f, _ in subs]!r}"[:600])
+                    for (fields, payload), h, l, pb in zip(case.get("messages", PREFIX_MESSAGES), heard, lines, pubs):
+                        print(f"   {tk}: broker message on {topic_of(pin, fields)!r}: {'read as ' + repr(l) if h else 'NOT FORWARDED'}; "
+                              f"write published on {pb[0] if pb else None!r}"[:900])
+        elif kind == "write":
+            print(f"configured in-prefix {case['in']!r}\nconfigured out-prefix {case['out']!r}")
+            await run_mapping(corr, [{"version": case.get("version", "2.2"), "out": case["out"], "in": case["in"],
+                                      "fields": tuple(case["fields"]), "payload": case["payload"], "label": "replay"}],
+                              {v: codec.schema_for(v) for v in lib.VERSIONS}, 1)
         else:
             print("(cases of this kind are reproduced by re-running the check with the same seed)")
 
@@ -1543,12 +1837,12 @@ def replay(case: dict) -> None:
         asyncio.run(main())
     finally:
         mqtt_mod.AsyncioClient = saved_client
-    if kind in ("hookfault", "object", "session"):
+    if kind in ("hookfault", "object", "session", "prefix", "subscribe", "write"):
         print(f"re-executed on the implementation: {len(corr.violations)} oracle violation(s)")
         for v in corr.violations:
             print("  VIOLATED:", v["what"])
             for k in ("connect", "hook_faults_fired", "subscriptions_in_place", "probes_not_delivered", "at_op", "got",
-                      "deaf_for_commands", "subscriptions", "topic"):
+                      "deaf_for_commands", "subscriptions", "topic", "published", "want", "transport"):
                 if k in v:
                     print(f"     {k}: {v[k]}")
 
@@ -1557,8 +1851,15 @@ def replay(case: dict) -> None:
 
 
 def run_c18(ctx) -> Corr:
-    corr = Corr("C18", "(a) well-formed messages (codec generators: boundary product + random) x 7 prefix pairs (1-6 "
-                "levels) x payload classes (empty, ';', '/', non-ASCII, astral, '#', '+', random) through "
+    corr = Corr("C18", "prefixes: every part draws the in- and the out-prefix (independently) from one alphabet - plain "
+                "1-6 levels, regex / format metacharacters, zero-length levels (leading, trailing, doubled divider, only "
+                "dividers, the empty prefix), blanks (space, tab, newline, NBSP, ideographic space; around dividers), case, "
+                "unicode (composed / decomposed, full-width, RTL, astral, zero-width), levels that look like message "
+                "levels, ';', '$', quotes, '%2F', dots, 40 levels, 300 characters, + 16 random prefixes per seed (1-9 "
+                "levels from a level alphabet with zero-length levels, random characters of the legal range; no '+', "
+                "'#', NUL) - and builds topics, oracle and model input from the prefix AS CONFIGURED (constructor "
+                "argument), never from what the transport stores; (a) well-formed messages (codec generators: boundary "
+                "product + random) x prefix pairs x payload classes (empty, ';', '/', non-ASCII, astral, '#', '+', random) through "
                 "MQTTTransport.write / _receive / read on an in-memory subclass, a part of them also through "
                 "MQTTClient with a fake aiomqtt client; checked: publish = (<out>/n/c/cmd/ack/type, payload, qos=ack), "
                 "echo under the in-prefix reads back 'n;c;cmd;ack;type;payload' and decodes (real MessageSchema) to "
@@ -1587,10 +1888,20 @@ def run_c18(ctx) -> Corr:
                 "(no half-open connection, no task, no client); write() publishes or raises; an error of any class "
                 "handed to _receive_error is raised by the read whose turn it is; all compared with the Lean model "
                 "(toTopic, toLine, matchesFilter, subscriptions, utf8Decode, tStep, disconnect, connect, write, oStep, "
-                "hookConnect). non-trivial = distinct case with a special payload/prefix/field, every distinct "
+                "hookConnect); (g) configured prefixes: every prefix of the alphabet and very long ones (2000 characters, 500 "
+                "levels, 400 zero-length levels; thorough: up to the 65535-byte limit) once as in-prefix and once as "
+                "out-prefix (paired by a seeded shuffle), some pairs with both the same, random pairs, on both transports: "
+                "connect, per command 0-4 a broker message on '<configured in-prefix>/n/c/cmd/ack/type' must be "
+                "forwarded by the harness's broker (MQTT matching against the subscriptions made) and read back as the "
+                "line, the write of the same message must be one publish on '<configured out-prefix>/n/c/cmd/ack/type' "
+                "with qos=ack, disconnect returns and leaves no task; compared with the model given the configured "
+                "prefixes (subs, heard, toLine, toTopic). non-trivial = distinct case with a special payload/prefix/field, every distinct "
                 "session, object run, fault plan, subscription set and failure script")
+    global POOL
+    POOL = prefix_pool(ctx.seed)
     rng = lib.rng_for(ctx.seed, "c18")
     mrng = lib.rng_for(ctx.seed, "c18-malformed")
+    prefix_cases = prefix_config_cases(ctx, POOL, lib.rng_for(ctx.seed, "c18-prefix-pairs"))
     schemas = {v: codec.schema_for(v) for v in lib.VERSIONS}
     saved_client = mqtt_mod.AsyncioClient
     cases = mapping_cases(ctx, rng)
@@ -1604,9 +1915,14 @@ def run_c18(ctx) -> Corr:
             sessions.insert(0, {"transport": rc["transport"], "in": rc["in_prefix"], "ops": rc["ops"],
                                 "aexit": rc.get("aexit", "ok"), "label": "replay"})
         elif rc.get("kind") == "object":
-            replay_runs.append({"in": rc["in_prefix"], "ops": rc["ops"], "label": "replay"})
+            replay_runs.append({"in": rc["in_prefix"], "out": rc.get("out_prefix", OBJ_OUT), "ops": rc["ops"], "label": "replay"})
         elif rc.get("kind") == "hookfault":
-            replay_hooks.append({"in": rc["in_prefix"], "plan": rc["plan"], "label": "replay"})
+            replay_hooks.append({"in": rc["in_prefix"], "out": rc.get("out_prefix", OBJ_OUT), "plan": rc["plan"], "label": "replay"})
+        elif rc.get("kind") == "prefix":
+            prefix_cases.insert(0, {"kind": "prefix", "in_prefix": rc["in_prefix"], "out_prefix": rc["out_prefix"],
+                                    "messages": rc.get("messages", PREFIX_MESSAGES)})
+        elif rc.get("kind") == "subscribe":
+            prefix_cases.insert(0, {"kind": "prefix", "in_prefix": rc["in"], "out_prefix": "out", "messages": PREFIX_MESSAGES})
         elif rc.get("kind") == "write":
             cases.insert(0, {"version": rc.get("version", "2.2"), "out": rc["out"], "in": rc["in"],
                              "fields": tuple(rc["fields"]), "payload": rc["payload"], "label": "replay"})
@@ -1618,6 +1934,7 @@ def run_c18(ctx) -> Corr:
     async def main() -> None:
         results["map"] = await run_mapping(corr, cases, schemas, 400 if ctx.tier == "quick" else 4000)
         results["subs"] = await run_subscriptions(corr)
+        results["prefix"] = await run_prefix_configs(corr, prefix_cases)
         sess_obs = []
         for sess in sessions:
             obs = await run_session(corr, sess)
@@ -1676,13 +1993,16 @@ def run_c18(ctx) -> Corr:
         for oo in obj_ops:
             flat.extend(oo)
         hook_ops, hook_recs = results["hooks"]
-        all_ops = map_ops + sub_ops + raw_ops + fail_ops + hook_ops + [f"utf8 {encb(b)}" for b in u8] + flat
+        pre_ops, pre_recs = results["prefix"]
+        all_ops = map_ops + sub_ops + pre_ops + raw_ops + fail_ops + hook_ops + [f"utf8 {encb(b)}" for b in u8] + flat
         outs = lib.run_model(all_ops, driver=DRIVER)
         pos = 0
         compare_mapping(corr, map_checks, outs[pos: pos + len(map_ops)])
         pos += len(map_ops)
         compare_subscriptions(corr, sub_recs, outs[pos: pos + len(sub_ops)])
         pos += len(sub_ops)
+        compare_prefix_configs(corr, pre_recs, outs[pos: pos + len(pre_ops)])
+        pos += len(pre_ops)
         compare_raw(corr, raw_data, outs[pos: pos + len(raw_ops)])
         pos += len(raw_ops)
         for (rec, want), o in zip(fail_recs, outs[pos: pos + len(fail_ops)]):
@@ -1723,7 +2043,7 @@ def run_c18(ctx) -> Corr:
             if not oo:
                 corr.count("object-run:oracle-only (a class outside the model's vocabulary)")
                 continue
-            rec = {"kind": "object", "in_prefix": run["in"], "ops": run["ops"]}
+            rec = {"kind": "object", "in_prefix": run["in"], "out_prefix": run.get("out", OBJ_OUT), "ops": run["ops"]}
             for i, (st, o) in enumerate(zip(steps, mo[1:])):
                 model = parse_ostate(o)
                 if model != (model_res(st[0]),) + tuple(st[1:]):
